@@ -58,6 +58,8 @@ type e2World struct {
 	held      int
 	// rank, when set, replaces the drawn schedule by a fixed priority policy (directed reproducers of known findings)
 	rank func(a *vs.Actor) int
+	// atClose runs at teardown (listeners, temp files)
+	atClose []func()
 }
 
 const e2FairAge = 400
@@ -364,6 +366,9 @@ func (w *e2World) close() {
 	runner.RunTask = w.savedRun
 	for fd := range w.fds {
 		syscall.Close(fd)
+	}
+	for _, f := range w.atClose {
+		f()
 	}
 	time.Sleep(0)
 }
